@@ -2604,3 +2604,5 @@ PROP = Prop(
     technique='Lean 4 proofs about loop-faithful models (well-founded recursion, Mathlib Monoid/Int lemmas) + differential correspondence + numeric DFT oracle',
     design_ref="DESIGN.md §4 C19",
 )
+
+PROP.level_note += ' The polynomials stream includes coefficients around and beyond 2**31 / 2**53 / 2**63 / 2**64 and powers whose coefficients outgrow 64 bits (the model computes in Z).'
